@@ -366,7 +366,11 @@ func genC14(g *Gen, tier string) *Program {
 		// The run is cut over to fair scheduling early; if Close is still starved
 		// then, the run ends as a livelock.
 		p.Prelude = append(p.Prelude, Op{K: "m3ac", M: 900, Name: "spam_c", Tags: map[string]string{"a": "1"}})
-		for i := g.Range(2, 3); i > 0; i-- {
+		// (two or three of them, or a crowd: under a scheduler that picks at random
+		// a Close that waits for a moment at which no producer is in the middle of
+		// a call finds one soon among three producers and practically never among
+		// sixteen)
+		for i := pick(g, 2, 3, 3, 10, 16); i > 0; i-- {
 			var ops []Op
 			for k := g.Intn(3); k > 0; k-- {
 				ops = append(ops, Op{K: "yield"})
